@@ -25,7 +25,7 @@ ASSUMPTIONS = [
     "finite differences: central, h = 1e-6*max(1,|x|), tolerance 1e-5 relative",
 ]
 MIN_NONTRIVIAL = {"quick": 250, "thorough": 4000}
-REQUIRED_MONITORS = ["field", "target_vars", "gradient_fd", "closed_form_derivative"]
+REQUIRED_MONITORS = ["field", "target_vars", "gradient_fd", "closed_form_derivative", "numeric_individual_prediction", "numeric_eta_gradient"]
 BATCH_TIMEOUT = {"quick": 2400, "thorough": 6 * 3600}
 
 
@@ -112,6 +112,8 @@ def run_case(rng, idx, tier):
                 steps.append(name)
         except Exception:
             pass
+    if idx % 10 == 5:
+        return _numeric_evaluators(c, rng, idx, tier)
     if idx % 10 == 4:
         return _evaluators(c, rng, model, sname, steps, tier)
     if idx % 10 == 3:
@@ -166,6 +168,190 @@ def run_case(rng, idx, tier):
             key = "C07/rename-symbols-skips-dependent-variables"
         c.violate(key, f"{rname} after {steps} on {sname}: {mm.what}", {"detail": mm.detail, "mapping": mapping})
         c.nontrivial = True
+    return c
+
+
+def _numeric_evaluators(c, rng, idx, tier):
+    """evaluate_population_prediction / _individual_prediction / _eta_gradient / _epsilon_gradient / _expression on
+    ODE-free models with a dataset, under every combination of the optional arguments (given etas vs the model's
+    initial individual estimates vs none; given parameters vs initial estimates; given dataset vs the model's),
+    compared record by record with direct evaluation of the model's statements (vp.ir_eval) and central differences."""
+    import os
+    from pathlib import Path
+
+    import numpy as np
+    import pandas as pd
+    import pharmpy.modeling as pm
+
+    from vp import denote
+    from vp.ir_eval import EvalError, Unbound, ev
+
+    # ---- model: the packaged linearised example or a generated $PRED model with its dataset
+    if rng.random() < 0.35:
+        sname = "pheno_linear"
+        model = pm.load_example_model("pheno_linear")
+        model = model.replace(dataset=model.dataset.iloc[: rng.randint(20, 60)].reset_index(drop=True).copy())
+    else:
+        from vp.gen import nmtran as G
+
+        sname = "gen:pred"
+        wd = Path(os.environ["VERIF_SCRATCH"]) / f"c07n{idx}"
+        wd.mkdir(parents=True, exist_ok=True)
+        for _ in range(20):
+            g = G.gen_model(rng, (), simple=False)
+            if g["meta"]["kind"] == "pred":
+                break
+        else:
+            c.skipped = "no-pred-model-generated"
+            return c
+        (wd / "data.csv").write_text(g["data"])
+        (wd / "m.mod").write_text(g["text"].replace("DATAFILE", "data.csv"))
+        try:
+            model = pm.read_model(wd / "m.mod")
+            _ = model.statements
+        except Exception as e:
+            c.refusal = type(e).__name__
+            return c
+    c.sample = {"start": sname, "refactoring": "numeric_evaluators"}
+    ird = denote.IRDen(model)
+    etas, epss = ird.eta_names, ird.eps_names
+    ylab = next(iter(ird.dv_map))
+    idcol = model.datainfo.id_column.name
+    df_model = model.dataset
+    ids = list(dict.fromkeys(df_model[idcol].tolist()))
+    rvp = set(model.random_variables.parameter_names)
+
+    def eta_frame(scale):
+        return pd.DataFrame({n: [round(rng.uniform(-scale, scale), 3) for _ in ids] for n in etas}, index=ids)
+
+    # ---- the optional arguments
+    given_etas = eta_frame(0.4) if rng.random() < 0.6 else None
+    iie = eta_frame(0.3) if rng.random() < 0.5 else None
+    if iie is not None:
+        model = model.replace(initial_individual_estimates=iie)
+    given_pars = None
+    if rng.random() < 0.5:
+        thetas = [p for p in model.parameters if p.name not in rvp and not p.fix]
+        if thetas:
+            # a value for every parameter, as in the docstring examples (a partial dictionary is not documented)
+            given_pars = {p.name: float(p.init) for p in model.parameters}
+            given_pars.update({p.name: denote.sample_theta(rng, (float(p.init), float(p.lower), float(p.upper), p.fix)) for p in thetas})
+    given_df = None
+    if rng.random() < 0.4:
+        given_df = df_model.iloc[::-1].reset_index(drop=True).copy() if rng.random() < 0.5 else df_model.iloc[: max(3, len(df_model) // 2)].copy()
+    c.sample.update({"etas": given_etas is not None, "initial_individual_estimates": iie is not None,
+                     "parameters": sorted(given_pars) if given_pars else None, "dataset": given_df is not None})
+    c.fp = fp_of(sname, c.sample["etas"], c.sample["initial_individual_estimates"], bool(given_pars), c.sample["dataset"],
+                 model.code if sname != "pheno_linear" else len(df_model))
+    df = df_model if given_df is None else given_df
+    eff_etas = given_etas if given_etas is not None else (iie if iie is not None else None)
+    pvals = {p.name: float(p.init) for p in model.parameters}
+    pvals.update(given_pars or {})
+
+    def y_ref(row, eta_vals, eps_vals):
+        vals = dict(pvals)
+        vals.update(eta_vals)
+        vals.update(eps_vals)
+        rec = {k: (float(v) if isinstance(v, (int, float, np.integer, np.floating)) else v) for k, v in row.items()}
+        env = denote._names_env(ird, vals, rec, float(rec.get("TIME", 0.0)) if "TIME" in rec else 0.0)
+        return ird.run_pk(env, None)[ylab]
+
+    def etas_of(row, zero=False):
+        if zero or eff_etas is None:
+            return {n: 0.0 for n in etas}
+        return {n: float(eff_etas.loc[row[idcol], n]) for n in etas}
+
+    zeros_eps = {n: 0.0 for n in epss}
+    rows = [dict(r) for _, r in df.iterrows()]
+    judged = 0
+
+    def compare(name, got, want_fn, tol=1e-7):
+        nonlocal judged
+        got = list(np.asarray(got, dtype=float))
+        if len(got) != len(rows):
+            c.violate(None, f"{name} returned {len(got)} values for {len(rows)} data records", c.sample)
+            return False
+        for i, row in enumerate(rows):
+            try:
+                want = want_fn(row)
+            except (EvalError, Unbound, ZeroDivisionError, OverflowError, ValueError):
+                c.hit("numeric_point_rejected")
+                continue
+            g = got[i]
+            if g != g:
+                c.hit("numeric_point_rejected")  # pharmpy's own evaluation is undefined there, too
+                continue
+            c.hit("numeric_" + name)
+            if abs(g - want) > tol * max(1.0, abs(g), abs(want)):
+                c.violate(None, f"{name} (etas given: {given_etas is not None}, initial individual estimates: {iie is not None}, "
+                                f"parameters given: {bool(given_pars)}, dataset given: {given_df is not None}) record {i}: "
+                                f"pharmpy {g}, direct evaluation {want}", c.sample)
+                return False
+            judged += 1
+        return True
+
+    kw = {}
+    if given_pars:
+        kw["parameters"] = given_pars
+    if given_df is not None:
+        kw["dataset"] = given_df
+    try:
+        ok = compare("population_prediction", pm.evaluate_population_prediction(model, **kw),
+                     lambda row: y_ref(row, etas_of(row, zero=True), zeros_eps))
+        kwe = dict(kw)
+        if given_etas is not None:
+            kwe["etas"] = given_etas
+        if given_etas is None and iie is not None:
+            # "the current eta values" of a model with initial individual estimates: the gradient functions use them,
+            # the individual prediction uses zeros - the documentation does not say which; not judged
+            c.hit("not_judged:individual-prediction-without-etas-on-model-with-initial-individual-estimates")
+        else:
+            ok = ok and compare("individual_prediction", pm.evaluate_individual_prediction(model, **kwe),
+                                lambda row: y_ref(row, etas_of(row), zeros_eps))
+        if ok:
+            eg = pm.evaluate_eta_gradient(model, **kwe)
+            for k, n in enumerate(etas):
+                def fd(row, n=n):
+                    e0 = etas_of(row)
+
+                    def d(h):
+                        ep, em = dict(e0), dict(e0)
+                        ep[n] += h
+                        em[n] -= h
+                        return (y_ref(row, ep, zeros_eps) - y_ref(row, em, zeros_eps)) / (2 * h)
+                    a, b = d(1e-6), d(1e-4)
+                    if abs(a - b) > 1e-5 * max(1.0, abs(a), abs(b)):
+                        raise EvalError("difference quotient not stable (kink or ill-conditioned point)")
+                    return a
+                if not compare("eta_gradient", eg.iloc[:, k], fd, tol=2e-5):
+                    ok = False
+                    break
+        if ok:
+            pg = pm.evaluate_epsilon_gradient(model, **kwe)
+            for k, n in enumerate(epss):
+                def fd(row, n=n):
+                    def d(h):
+                        ep, em = dict(zeros_eps), dict(zeros_eps)
+                        ep[n] += h
+                        em[n] -= h
+                        return (y_ref(row, etas_of(row), ep) - y_ref(row, etas_of(row), em)) / (2 * h)
+                    a, b = d(1e-6), d(1e-4)
+                    if abs(a - b) > 1e-5 * max(1.0, abs(a), abs(b)):
+                        raise EvalError("difference quotient not stable (kink or ill-conditioned point)")
+                    return a
+                if not compare("epsilon_gradient", pg.iloc[:, k], fd, tol=2e-5):
+                    break
+    except Exception as e:
+        from vp import histories
+
+        kind = histories.classify_exception(e)
+        c.hit("numeric_evaluator_" + kind + ":" + type(e).__name__)
+        if kind == "refusal":
+            c.refusal = type(e).__name__
+        else:
+            c.sample["error"] = f"{type(e).__name__}: {str(e)[:200]}"
+            c.skipped = "numeric-evaluator-internal-error"
+    c.nontrivial = judged > 0
     return c
 
 
